@@ -194,6 +194,334 @@ def gen_ext_case(rng):
     return dict(case=[view, sigs, steps, [rng.randint(0, 1)]], kind="async-keyed", compare=False)
 
 
+# ------------------------------------------------------------------ wide grammar (anchor coverage audit, coverage/C04.md)
+# text (1 l e repr): repr 0 closure, 1 Arc<dyn Fn>, 2 Arc<Mutex<dyn FnMut>>, 3..11 the signal itself (e = one signal)
+# props (k l e repr flag): k 0 title, 1 class, 2 class:NAME, 3 style:NAME, 4 style (whole), 5 class = Option,
+#   6 Either-valued (title / class by the enclosing value); flag 1: NAME chosen by the enclosing conditional's value
+# (4 l es ea ckind) async leaf with content kind 0 text, 1 <div>text</div>, 2 two texts
+# (6 l e arms) EitherOf3/4/5, (7 kids) fragment, (8 l e kid) kid.add_any_attr(lang=e)
+WPROPS = 7
+
+
+def gen_wexpr(rng, nsig, single=False):
+    if single:
+        return [0, rng.randrange(nsig)]
+    return gen_expr(rng, nsig)
+
+
+def gen_wprops(rng, nsig, lab, in_plain_if):
+    props = []
+    used = set()
+    for k in rng.sample([0, 1, 2, 3, 4, 5, 6], rng.choice([0, 1, 1, 2, 3])):
+        # one owner per attribute: a whole `class=` rewrites the attribute a `class:x` toggles (last writer wins)
+        slot = {0: "t", 1: "c", 2: "c", 3: "w", 4: "w", 5: "c", 6: "tc"}[k]
+        if slot in used or (slot == "tc" and used & {"t", "c"}) or (slot in ("t", "c") and "tc" in used):
+            continue
+        used.add(slot)
+        repr_ = rng.choice([0, 0, 1, 2] + list(range(3, 12))) if k <= 4 else 0
+        flag = int(k in (2, 3) and in_plain_if and rng.random() < 0.6)
+        e = gen_wexpr(rng, nsig, single=repr_ >= 3)
+        props.append([k, lab.next(), e, repr_, flag])
+    props.sort(key=lambda p: p[0])
+    return props
+
+
+def gen_wstatic(rng, nsig, depth, lab, in_plain_if):
+    for _ in range(20):
+        v = gen_wview(rng, nsig, depth, lab, in_plain_if)
+        if static_top(v):
+            return v
+    return [0, 1]
+
+
+def gen_wview(rng, nsig, depth, lab, in_plain_if=False, top=False):
+    r = rng.random()
+    if depth <= 0:
+        r *= 0.4
+    sub = lambda pif=in_plain_if: gen_wview(rng, nsig, depth - 1, lab, pif)
+    if r < 0.06:
+        return [0, rng.randint(0, 9)]
+    if r < 0.24:
+        repr_ = rng.choice([0, 0, 1, 2] + list(range(3, 12)))
+        return [1, lab.next(), gen_wexpr(rng, nsig, single=repr_ >= 3), repr_]
+    if r < 0.36:
+        es = gen_expr(rng, nsig) if rng.random() < 0.6 else [1, rng.randint(0, 2)]
+        return [4, lab.next(), es, gen_expr(rng, nsig), rng.choice([0, 1, 2])]
+    if r < 0.58:
+        return [2, gen_wprops(rng, nsig, lab, in_plain_if), [sub() for _ in range(rng.choice([0, 1, 1, 2, 3]))]]
+    if r < 0.72:
+        memo = int(rng.random() < 0.3)
+        l = lab.next()
+        return [3, l, memo, gen_expr(rng, nsig), gen_wview(rng, nsig, depth - 1, lab, not memo),
+                gen_wview(rng, nsig, depth - 1, lab, not memo)]
+    if r < 0.82:
+        l = lab.next()
+        n = rng.choice([3, 4, 5])
+        return [6, l, gen_expr(rng, nsig), [gen_wview(rng, nsig, depth - 1, lab, True) for _ in range(n)]]
+    if r < 0.90:
+        return [7, [sub() for _ in range(rng.choice([0, 1, 2, 2, 3]))]]
+    if r < 0.96:
+        l = lab.next()
+        e = gen_expr(rng, nsig)
+        kid = rng.choice([
+            lambda: [2, gen_wprops(rng, nsig, lab, in_plain_if), [sub() for _ in range(rng.choice([0, 1, 2]))]],
+            lambda: [3, lab.next(), 0, gen_expr(rng, nsig), gen_wstatic(rng, nsig, depth - 1, lab, True), gen_wstatic(rng, nsig, depth - 1, lab, True)],
+            lambda: [7, [[2, gen_wprops(rng, nsig, lab, in_plain_if), []] for _ in range(rng.randint(1, 2))]],
+        ])()
+        return [8, l, e, kid]
+    keys = rng.sample(range(1, 10), rng.randint(2, 4))
+    lists = [list(keys)]
+    for _ in range(rng.randint(1, 3)):
+        cur = list(rng.choice(lists))
+        m = rng.random()
+        if m < 0.35 and cur:
+            cur.pop(rng.randrange(len(cur)))
+        elif m < 0.65:
+            new = [k for k in range(1, 10) if k not in cur]
+            cur.insert(rng.randint(0, len(cur)), rng.choice(new))
+        elif m < 0.85:
+            rng.shuffle(cur)
+        else:
+            cur = []
+        lists.append(cur)
+    return [5, lab.next(), rng.randrange(nsig), lists]
+
+
+def static_top(v):
+    """the top-level nodes of v exist from the first render on and are never replaced by a closure of their own
+    (a spread attribute on a type-erased view is bound to the elements present when it is built)"""
+    if v[0] in (0, 1, 2):
+        return True
+    if v[0] == 7:
+        return all(static_top(k) for k in v[1])
+    return False
+
+
+def wlabels(v):
+    op = v[0]
+    if op == 0:
+        return []
+    if op in (1, 4, 5):
+        return [v[1]]
+    if op == 2:
+        return [p[1] for p in v[1]] + [l for k in v[2] for l in wlabels(k)]
+    if op == 3:
+        return [v[1]] + wlabels(v[4]) + wlabels(v[5])
+    if op == 6:
+        return [v[1]] + [l for a in v[3] for l in wlabels(a)]
+    if op == 7:
+        return [l for k in v[1] for l in wlabels(k)]
+    if op == 8:
+        return [v[1]] + wlabels(v[3])
+    return []
+
+
+def wasync_labels(v):
+    op = v[0]
+    if op == 4:
+        return [v[1]]
+    if op == 2:
+        return [l for k in v[2] for l in wasync_labels(k)]
+    if op == 3:
+        return wasync_labels(v[4]) + wasync_labels(v[5])
+    if op == 6:
+        return [l for a in v[3] for l in wasync_labels(a)]
+    if op == 7:
+        return [l for k in v[1] for l in wasync_labels(k)]
+    if op == 8:
+        return wasync_labels(v[3])
+    return []
+
+
+def wfresh(v, s, env=0, wild=False):
+    """the node list a from-scratch render shows (wide grammar); with wild, a pending async leaf is ["?", ckind]"""
+    op = v[0]
+    if op == 0:
+        return [[0, v[1]]]
+    if op == 1:
+        return [[0, ev(v[2], s)]]
+    if op == 2:
+        p = [-1, -1, 0, -1, 0, -1, -1]
+        for k, _l, e, _repr, flag in v[1]:
+            x = ev(e, s)
+            alt = bool(flag) and env % 2 == 1
+            if k == 0:
+                p[0] = x
+            elif k == 1:
+                p[1] = x
+            elif k == 2:
+                p[4 if alt else 2] = 1 if x != 0 else 0
+            elif k == 3:
+                p[5 if alt else 3] = x
+            elif k == 4:
+                p[3] = x
+            elif k == 5:
+                p[1] = x if x != 0 else -1
+            else:
+                p[0 if env % 2 == 0 else 1] = x
+        return [[1, p, [n for k in v[2] for n in wfresh(k, s, env, wild)]]]
+    if op == 3:
+        n = ev(v[3], s)
+        return wfresh(v[4] if n != 0 else v[5], s, 0 if v[2] else n, wild)
+    if op == 4:
+        if wild:
+            return [["?", v[4]]]
+        n = ev(v[2], s) + ev(v[3], s)
+        return {0: [[0, n]], 1: [[1, [-1, -1, 0, -1, 0, -1, -1], [[0, n]]]], 2: [[0, n], [0, n + 1]]}[v[4]]
+    if op == 5:
+        lists = v[3]
+        items = lists[s[v[2]] % len(lists)] if lists else []
+        return [[0, i * 100 + k] for i, k in enumerate(items)]
+    if op == 6:
+        n = ev(v[2], s)
+        return wfresh(v[3][n % len(v[3])], s, n, wild)
+    if op == 7:
+        return [n for k in v[1] for n in wfresh(k, s, env, wild)]
+    if op == 8:
+        out = []
+        for n in wfresh(v[3], s, env, wild):
+            if n[0] == 1:
+                p = list(n[1])
+                p[6] = ev(v[2], s)
+                n = [1, p, n[2]]
+            out.append(n)
+        return out
+    return []
+
+
+def wmatch(want, got):
+    """does the node list `got` equal `want`, where ["?", ckind] stands for nothing or for the content kind's nodes
+    with any values (an async leaf that is pending shows nothing yet or what its previous run resolved to)"""
+    if not want:
+        return not got
+    w = want[0]
+    if w[0] == "?":
+        if wmatch(want[1:], got):
+            return True
+        if w[1] == 0:
+            return bool(got) and got[0][0] == 0 and wmatch(want[1:], got[1:])
+        if w[1] == 1:
+            return (bool(got) and got[0][0] == 1 and got[0][1] == [-1, -1, 0, -1, 0, -1, -1] and len(got[0][2]) == 1
+                    and got[0][2][0][0] == 0 and wmatch(want[1:], got[1:]))
+        return len(got) >= 2 and got[0][0] == 0 and got[1][0] == 0 and wmatch(want[1:], got[2:])
+    if not got:
+        return False
+    g = got[0]
+    if w[0] != g[0]:
+        return False
+    if w[0] == 0:
+        return w[1] == g[1] and wmatch(want[1:], got[1:])
+    return w[1] == g[1] and wmatch(w[2], g[2]) and wmatch(want[1:], got[1:])
+
+
+def gen_wide_case(rng):
+    nsig = rng.choice([1, 2, 2, 3])
+    while True:
+        lab = Lab()
+        view = [2, [], [gen_wview(rng, nsig, rng.choice([1, 2, 2, 3]), lab) for _ in range(rng.choice([1, 2]))]]
+        labs = wlabels(view)
+        if len(labs) == len(set(labs)) and labs:
+            break
+    sigs = [rng.randint(0, 2) for _ in range(nsig)]
+    steps = []
+    alabs = wasync_labels(view)
+    for _ in range(rng.randint(2, 6)):
+        writes = [[rng.randrange(nsig), rng.choice([0, 1, 2, 3, 4, 5])] for _ in range(rng.choice([0, 1, 1, 1, 2]))]
+        picks = [rng.randint(0, 7) for _ in range(rng.choice([0, 0, 3, 6]))]
+        r = rng.random()
+        if not alabs or r < 0.3:
+            comps = []
+        elif r < 0.6:
+            comps = [[l, 0] for l in alabs]
+        else:
+            comps = [[rng.choice(alabs), rng.choice([0, 0, 1])] for _ in range(rng.randint(1, 3))]
+        steps.append([writes, picks, comps])
+    return dict(case=[view, sigs, steps, [rng.randint(0, 1)], [2, int(rng.random() < 0.3)]], kind="reactive-wide", compare=False)
+
+
+def wtop_text_labels(v):
+    """labels of closure-valued texts that are mounted for the whole run (no conditional above them)"""
+    if v[0] == 1:
+        return [v[1]] if v[3] < 3 else []
+    if v[0] == 2:
+        return [l for k in v[2] for l in wtop_text_labels(k)]
+    if v[0] == 7:
+        return [l for k in v[1] for l in wtop_text_labels(k)]
+    return []
+
+
+def oracle_wide(item, impl):
+    view, sigs, steps, _drain, _mode = item["case"]
+    s = list(sigs)
+    if len(impl) != len(steps) + 2:
+        return "malformed observation"
+    for entry in impl:
+        if not (isinstance(entry, list) and len(entry) == 3 and isinstance(entry[0], list) and isinstance(entry[1], list)):
+            return "malformed observation"
+    for k, (lg, nodes, fresh_eq) in enumerate(impl):
+        if 0 < k <= len(steps):
+            for i, x in steps[k - 1][0]:
+                s[i] = x
+        got = [plain(n) for n in nodes]
+        if k == len(impl) - 1:
+            if got != wfresh(view, s):
+                return "all futures completed, executor idle: the DOM is not the render of the latest signal values"
+            if fresh_eq != 1:
+                return "all futures completed, executor idle: the DOM differs from a fresh mount"
+        elif not wmatch(wfresh(view, s, 0, True), got):
+            return "idle point %d: outside the pending async leaves the DOM is not the render of the current signal values" % k
+    logs = [e[0] for e in impl]
+    for l in wtop_text_labels(view):
+        seq = [x for lg in logs for x in lg if x in (l, l + CLEANUP)]
+        for i, x in enumerate(seq):
+            if x != (l if i % 2 == 0 else l + CLEANUP):
+                return ("closure %d: its on_cleanup callback did not run between two of its runs (or ran without one): %r"
+                        % (l, seq[:12]))
+    return None
+
+
+def _wshape_ok(v, n, in_plain_if=False):
+    op = v[0]
+    if op == 0:
+        return len(v) == 2 and v[1] >= 0
+    if op == 1:
+        return len(v) == 4 and 0 <= v[3] < 12 and _expr_ok(v[2], n) and (v[3] < 3 or v[2][0] == 0)
+    if op == 2:
+        slots = []
+        for p in v[1]:
+            if not (len(p) == 5 and 0 <= p[0] <= 6 and 0 <= p[3] < 12 and p[4] in (0, 1) and _expr_ok(p[2], n)):
+                return False
+            if p[3] >= 3 and (p[2][0] != 0 or p[0] > 4):
+                return False
+            if p[4] and not (p[0] in (2, 3) and in_plain_if):
+                return False
+            slots.append({0: "t", 1: "c", 2: "c", 3: "w", 4: "w", 5: "c", 6: "tc"}[p[0]])
+        if len(set(slots)) != len(slots) or ("tc" in slots and ("t" in slots or "c" in slots)):
+            return False
+        if [p[0] for p in v[1]] != sorted(p[0] for p in v[1]):
+            return False
+        return len(v) == 3 and all(_wshape_ok(k, n, in_plain_if) for k in v[2])
+    if op == 3:
+        return (len(v) == 6 and v[2] in (0, 1) and _expr_ok(v[3], n) and _wshape_ok(v[4], n, not v[2])
+                and _wshape_ok(v[5], n, not v[2]))
+    if op == 4:
+        return len(v) == 5 and v[4] in (0, 1, 2) and _expr_ok(v[2], n) and _expr_ok(v[3], n)
+    if op == 5:
+        return (len(v) == 4 and 0 <= v[2] < n and len(v[3]) >= 1
+                and all(len(set(l)) == len(l) and all(0 < k < 100 for k in l) for l in v[3]))
+    if op == 6:
+        return len(v) == 4 and len(v[3]) in (3, 4, 5) and _expr_ok(v[2], n) and all(_wshape_ok(a, n, True) for a in v[3])
+    if op == 7:
+        return len(v) == 2 and len(v[1]) <= 3 and all(_wshape_ok(k, n, in_plain_if) for k in v[1])
+    if op == 8:
+        if not (len(v) == 4 and _expr_ok(v[2], n) and _wshape_ok(v[3], n, in_plain_if)):
+            return False
+        k = v[3]
+        return (k[0] == 2 or (k[0] == 3 and k[2] == 0 and static_top(k[4]) and static_top(k[5]))
+                or (k[0] == 7 and len(k[1]) >= 1 and all(x[0] == 2 and not x[2] for x in k[1])))
+    return False
+
+
 # ------------------------------------------------------------------ leptos-level component trees
 def gen_ltree(rng, nsig, nres, depth, lab, in_susp=False, in_row=False):
     r = rng.random()
@@ -600,6 +928,8 @@ def generate(rng, tier):
     for i in range(n):
         if i % 4 == 1:
             yield gen_leptos_case(rng)
+        if i % 2 == 0:
+            yield gen_wide_case(rng)
         if i % 3 == 0:
             it = gen_ext_case(rng)
             yield it
@@ -822,6 +1152,8 @@ def oracle_ext(item, impl):
 def oracle(item, impl):
     if isinstance(impl, str):
         return "harness error / panic: " + impl[:200]
+    if item.get("kind") == "reactive-wide":
+        return oracle_wide(item, impl)
     if item.get("kind") == "async-keyed":
         return oracle_ext(item, impl)
     if item.get("kind") == "leptos-components":
@@ -862,7 +1194,7 @@ def oracle(item, impl):
 
 
 def nontrivial(item, model):
-    if item.get("kind") in ("async-keyed", "leptos-components"):
+    if item.get("kind") in ("async-keyed", "leptos-components", "reactive-wide"):
         return True
     if isinstance(model, str) or item.get("kind") == "async-model":
         return False
@@ -927,6 +1259,20 @@ def valid_case(item):
                                     for k in st[2]) for st in steps))
         except Exception:
             return False
+    if item.get("kind") == "reactive-wide":
+        try:
+            view, sigs, steps, drain, mode = c
+            labs = wlabels(view)
+            alabs = wasync_labels(view)
+            return (len(labs) == len(set(labs)) and all(0 < l < CLEANUP for l in labs) and bool(sigs)
+                    and all(x >= 0 for x in sigs) and _wshape_ok(view, len(sigs)) and drain in ([0], [1])
+                    and mode in ([2, 0], [2, 1])
+                    and all(len(st) == 3 and all(0 <= i < len(sigs) and x >= 0 for i, x in st[0])
+                            and all(isinstance(k, int) and k >= 0 for k in st[1])
+                            and all(isinstance(k, list) and len(k) == 2 and k[0] in alabs and k[1] in (0, 1)
+                                    for k in st[2]) for st in steps))
+        except Exception:
+            return False
     if item.get("kind") == "async-model":
         return (isinstance(c, list) and len(c) == 5 and c[4] == [1] and not has_keyed(c[0])
                 and valid_case(dict(case=c[:4], kind="async-keyed")))
@@ -983,7 +1329,49 @@ def _shape_ok(v, n):
     return v[0] == 3 and len(v) == 6 and v[2] in (0, 1) and _expr_ok(v[3], n) and _shape_ok(v[4], n) and _shape_ok(v[5], n)
 
 
+def _either_paths(v, s, env, path, out):
+    """(path of branch choices, env parity) of every mounted Either-valued attribute (prop kind 6)"""
+    op = v[0]
+    if op == 2:
+        for p in v[1]:
+            if p[0] == 6:
+                out[(tuple(path), p[1])] = env % 2
+        for i, k in enumerate(v[2]):
+            _either_paths(k, s, env, path + [("k", i)], out)
+    elif op == 3:
+        n = ev(v[3], s)
+        _either_paths(v[4] if n != 0 else v[5], s, 0 if v[2] else n, path + [("if", v[1], n != 0)], out)
+    elif op == 6:
+        n = ev(v[2], s)
+        _either_paths(v[3][n % len(v[3])], s, n, path + [("n", v[1], n % len(v[3]))], out)
+    elif op == 7:
+        for i, k in enumerate(v[1]):
+            _either_paths(k, s, env, path + [("f", i)], out)
+    elif op == 8:
+        _either_paths(v[3], s, env, path + [("s", v[1])], out)
+
+
+def either_attr_flips(item):
+    """some Either-valued attribute stays mounted (same branch choices above it) across a step that changes the
+    parity of the enclosing value, i.e. is rebuilt in place with its other side: the open finding F-C04-c"""
+    view, sigs, steps = item["case"][:3]
+    s = list(sigs)
+    prev = {}
+    _either_paths(view, s, 0, [], prev)
+    for writes, _p, _c in steps:
+        for i, x in writes:
+            s[i] = x
+        cur = {}
+        _either_paths(view, s, 0, [], cur)
+        if any(k in prev and prev[k] != par for k, par in cur.items()):
+            return True
+        prev = cur
+    return False
+
+
 def classify(item, impl, model):
+    if item.get("kind") == "reactive-wide" and isinstance(impl, list) and either_attr_flips(item):
+        return "F-C04-c"
     return None
 
 
